@@ -475,7 +475,41 @@ let cmd_contact line =
    | Some st -> dump "ALL" st);
   print_endline (Buffer.contents b)
 
-let commands : (string * (string -> unit)) list ref = ref [ ("contact", cmd_contact); ("vtkread", cmd_vtkread); ("output", cmd_output); ("params", cmd_params); ("vtk", cmd_vtk); ("population", cmd_population); ("replay", cmd_replay); ("forces", cmd_forces); ("geometry", cmd_geometry); ("valid", cmd_valid); ("cellcycle", cmd_cellcycle); ("kernel", cmd_kernel); ("grid", cmd_grid); ("integrate", cmd_integrate) ]
+(* ---------------------------------------------------------------- C09 deterministic stages of the divider *)
+let cmd_divider line =
+  let t = Array.of_list (toks line) in
+  let pos = ref 1 in
+  let next () = let s = t.(!pos) in incr pos; s in
+  let nf () = f_of_s (next ()) in
+  let nv () = let x = nf () in let y = nf () in let z = nf () in { vx = x; vy = y; vz = z } in
+  let pv v = Printf.sprintf "%s %s %s" (s_of_f v.vx) (s_of_f v.vy) (s_of_f v.vz) in
+  match t.(0) with
+  | "EP" ->
+    let e1 = nv () in let e2 = nv () in let p = nv () in let n = nv () in
+    (match dv_edge_plane_f e1 e2 p n with Some x -> print_endline ("SOME " ^ pv x) | None -> print_endline "NONE")
+  | "DF" ->
+    let thr = int_of_string (next ()) in
+    let ids = List.init 5 (fun _ -> int_of_string (next ())) in
+    let corners = List.map (fun i -> ((i >= thr), { vx = Float64.of_float (float_of_int i); vy = Float64.of_float 0.0; vz = Float64.of_float 0.0 })) ids in
+    (match dv_divide_face5_f corners with
+     | None -> print_endline "NONE"
+     | Some tris -> print_endline ("TRIS" ^ String.concat "" (List.map (fun ((a, b), c) ->
+         Printf.sprintf " | %d %d %d" (int_of_float (Float64.to_float a.vx)) (int_of_float (Float64.to_float b.vx)) (int_of_float (Float64.to_float c.vx))) tris)))
+  | "ROT" ->
+    let n = nv () in let k = int_of_string (next ()) in
+    let pts = List.init k (fun _ -> nv ()) in
+    let tr = nv () in
+    let m = dv_rot_to_z_f n in
+    let b = Buffer.create 256 in
+    Buffer.add_string b ("M " ^ pv m.r1 ^ " " ^ pv m.r2 ^ " " ^ pv m.r3 ^ " XY");
+    let xy = List.map (fun p -> dv_to_xy_f m tr p) pts in
+    List.iter (fun p -> Buffer.add_string b (" " ^ pv p)) xy;
+    Buffer.add_string b " BACK";
+    List.iter (fun p -> Buffer.add_string b (" " ^ pv (dv_to_plane_f m tr p))) xy;
+    print_endline (Buffer.contents b)
+  | _ -> print_endline "?"
+
+let commands : (string * (string -> unit)) list ref = ref [ ("divider", cmd_divider); ("contact", cmd_contact); ("vtkread", cmd_vtkread); ("output", cmd_output); ("params", cmd_params); ("vtk", cmd_vtk); ("population", cmd_population); ("replay", cmd_replay); ("forces", cmd_forces); ("geometry", cmd_geometry); ("valid", cmd_valid); ("cellcycle", cmd_cellcycle); ("kernel", cmd_kernel); ("grid", cmd_grid); ("integrate", cmd_integrate) ]
 
 let () =
   let cmd = Sys.argv.(1) in
